@@ -4,11 +4,11 @@ package deps
 
 import (
 	_ "github.com/anishathalye/porcupine"
+	_ "github.com/btcsuite/btcd/btcec"
 	_ "github.com/ethereum/go-ethereum/core/state"
 	_ "github.com/ethereum/go-ethereum/core/vm"
+	_ "github.com/google/uuid"
 	_ "github.com/pkg/errors"
 	_ "github.com/tendermint/go-amino"
 	_ "github.com/tendermint/iavl"
-	_ "github.com/btcsuite/btcd/btcec"
-	_ "github.com/google/uuid"
 )
